@@ -2,7 +2,9 @@
 // vectors through a mutex-protected queue and const queries on one shared, frozen solver object.
 //   threads_drive <mode> <nthreads> <rounds> <seed>
 //     mode "trace": records heap / hand-over / exit events (ndjson, linearised by a global sequence) and result digests
-//     mode "race" : no recording at all (no extra synchronisation) - meant to be built with ThreadSanitizer
+//     mode "race" : no recording at all (no extra synchronisation) - meant to be built with ThreadSanitizer; in the plain
+//                   build it is the run in which calls of different threads overlap most (compared with "ref" bit for bit)
+//   optional 5th argument: repetitions of the all-entry-points block per round
 //     mode "ref"  : the same per-thread programs executed by ONE thread in round order; prints the result digests
 #include <SQuIDS/SQuIDS.h>
 #include <SQuIDS/detail/MatrixExp.h>
@@ -25,9 +27,9 @@ static std::vector<std::string> logv;
 static thread_local int my_tid = 0;   // 0 = main
 
 // ---- ledger (only in trace mode)
-static const int MAXB = 400;
+static const int MAXB = 2400;
 struct LE { void* p; int id; };
-static LE ledger[8192]; static int nled = 0; static bool used[MAXB + 1]; static int cached_by[MAXB + 1];
+static LE ledger[16384]; static int nled = 0; static bool used[MAXB + 1]; static int cached_by[MAXB + 1];
 static int find_l(void* p) { for (int i = 0; i < nled; i++) if (ledger[i].p == p) return i; return -1; }
 static void logline(const char* fmt, int a, int b) { char buf[160]; snprintf(buf, sizeof buf, fmt, a, b); logv.push_back(buf); }
 
@@ -38,7 +40,7 @@ void* operator new[](std::size_t size) {
   if (tracing && my_tid >= 0) {
     std::lock_guard<std::mutex> g(logm);
     int id = 0; for (int i = 1; i <= MAXB; i++) if (!used[i]) { id = i; break; }
-    if (!id || nled >= 8192) { fprintf(stderr, "ledger full\n"); _exit(3); }
+    if (!id || nled >= 16384) { fprintf(stderr, "ledger full\n"); _exit(3); }
     used[id] = true; cached_by[id] = 0; ledger[nled].p = p; ledger[nled].id = id; nled++;
     logline("{\"e\":\"AllocNew\",\"t\":%d,\"b\":%d}", my_tid, id);
   }
@@ -176,6 +178,71 @@ static std::string query_all(const SU_vector& op, int t, int r, int first = -1) 
   return "exp " + hex(digest(e, 7)) + hex(digest(&mid[0], mid.Size()));
 }
 
+// Every other entry point of the vector library that keeps scratch space between calls or builds its result through
+// internal temporaries, called by every thread in every round on the thread's own data: factories, matrix round trip,
+// basis rotations by parameters and by matrices, both weighted rotations, the three unitary transformations (the one
+// taking a generator goes through the matrix exponential - the scale walks through all Pade orders), eigen systems in
+// every dimension, averaged / interval evolution tables and both filters.  The digest of all results is compared with
+// the single-thread run; the ThreadSanitizer build sees every scratch object that is not per thread.
+static void everything(int t, int r, unsigned seed, Results& res) {
+  std::vector<double> acc;
+  double e1 = 0, e2 = 0; long ne = 0;
+  auto take = [&](const SU_vector& v) { for (unsigned k = 0; k < v.Size(); k++) acc.push_back(v[k]); };
+  // results that go through the matrix exponential are compared to 1e-9 (its norm estimator draws random probe columns, so the
+  // Pade order may differ from run to run at a band edge), everything else bit for bit
+  auto take_exp = [&](const SU_vector& v) { for (unsigned k = 0; k < v.Size(); k++) { ne++; e1 += v[k] * (1 + (ne % 7)); e2 += v[k] * v[k]; } };
+  for (unsigned d = 2; d <= 6; d++) {
+    if ((d + t + r) % 2) continue;                       // half of the dimensions per round, alternating
+    SU_vector a(d), w(d), hd(d), g(d);
+    fill(a, seed + 13 * t + r + d); fill(w, seed + 7 * t + 3 * r + d);
+    for (unsigned l = 1; l < d; l++) hd[d * l + l] = 0.3 * l + 0.05 * t;
+    for (unsigned k = 1; k < d * d; k++) g[k] = 0.02 * ((k * 5 + t + r) % 7) - 0.05;
+    take(SU_vector::Projector(d, (t + r) % d) + SU_vector::PosProjector(d, (t + 1) % d) + SU_vector::NegProjector(d, (r + 1) % d) + SU_vector::Identity(d) + SU_vector::Generator(d, (t * 3 + r) % (d * d)));
+    auto m = a.GetGSLMatrix(); SU_vector back(m.get()); take(back);
+    take(a.Real()); take(a.Imag()); { SU_vector tr = a; tr.Transpose(); take(tr); }
+    Const par;
+    for (unsigned j = 1; j < d; j++) for (unsigned i = 0; i < j; i++) { par.SetMixingAngle(i, j, 0.1 * (i + j + t % 3)); par.SetPhase(i, j, 0.05 * (j + r % 2)); }
+    { SU_vector x = a; x.RotateToB1(par); take(x); x.RotateToB0(par); take(x); }
+    auto U = par.GetTransformationMatrix(d);
+    take(a.Rotate(U.get())); take(a.UTransform(U.get())); take(a.UDaggerTransform(U.get()));
+    take(a.Rotate(0, d - 1, 0.3 + 0.1 * t, 0.2));
+    { SU_vector x = a; x.WeightedRotation(par, w, par); take(x); SU_vector y = a; y.WeightedRotation(U.get(), w, U.get()); take(y); }
+    // e^{-sG} a e^{sG}: the norm of s*G runs through the Pade bands (orders 3, 5, 7, 9, 13 with squaring) and the diagonal shortcut
+    static const double scales[] = {0.01, 0.2, 0.9, 2.5, 9.0, 40.0};
+    take_exp(a.UTransform(g, gsl_complex_rect(0, scales[(t + r + d) % 6])));
+    take_exp(a.UTransform(g, gsl_complex_rect(0, 2.5)));      // the degree-9 band in every thread, every round
+    take_exp(a.UTransform(hd, gsl_complex_rect(0, 0.7)));
+    auto es = w.GetEigenSystem((t + r) % 2 == 0);
+    for (unsigned k = 0; k < d; k++) acc.push_back(gsl_vector_get(es.first.get(), k));
+    std::vector<double> buf(hd.GetEvolveBufferSize());
+    std::vector<bool> avr(d * (d - 1) / 2 + 1);
+    hd.PrepareEvolve(buf.data(), 1.7 + 0.1 * r); take(a.Evolve(buf.data()));
+    hd.PrepareEvolve(buf.data(), 2.3, 0.4 + 0.1 * t, avr); take(a.Evolve(buf.data()));
+    hd.PrepareEvolve(buf.data(), 0.5, 1.5 + 0.2 * r); take(a.Evolve(buf.data()));
+    hd.LowPassFilter(buf.data(), 0.8, 0.3); take(a.Evolve(buf.data()));
+    hd.AvgRampFilter(buf.data(), 1.1, 2.0, 0.5); take(a.Evolve(buf.data()));
+    acc.push_back(a * w);
+    // fused statements whose target is an operand (evaluated through a temporary inside the library)
+    { SU_vector x = a; x = iCommutator(x, w); take(x); x = ACommutator(w, x); take(x); x = x.Evolve(hd, 0.3); take(x);
+      x += iCommutator(x, w); take(x); x -= ACommutator(x, w) * 0.0625; take(x); x = x.Evolve(buf.data()); take(x); }
+  }
+  // a digest of doubles rounded to 1e-9 relative would hide nothing here: these are bit-for-bit the same computations
+  res.r.push_back("all " + hex(digest(acc.data(), acc.size())));
+  char b[96]; snprintf(b, sizeof b, "exp %.12e %.12e", e1, e2);
+  res.r.push_back(b);
+}
+
+// the worker threads enter everything() together (a race on shared scratch space needs the calls to overlap)
+static std::atomic<int> bar_count{0}, bar_gen{0};
+static int bar_n = 0;      // 0: single-thread reference run, no rendezvous
+static int g_reps = 1;     // how often every thread runs everything() per round (argv[5])
+static void rendezvous() {
+  if (bar_n < 2) return;
+  int g = bar_gen.load();
+  if (bar_count.fetch_add(1) + 1 == bar_n) { bar_count.store(0); bar_gen.fetch_add(1); }
+  else while (bar_gen.load() == g) std::this_thread::yield();
+}
+
 // phase A of round r on logical thread t: local algebra, matrix exponential, send
 static void phase_a(int t, int r, int n, unsigned seed, std::vector<SU_vector>& pool, Results& res) {
   unsigned d = 2 + (t + r) % 5;
@@ -188,6 +255,7 @@ static void phase_a(int t, int r, int n, unsigned seed, std::vector<SU_vector>& 
   SU_vector ev = pool[1].Evolve(h, 0.37 * (r + 1));
   pool[0] -= ev;
   res.r.push_back("alg " + hex(digest(&pool[0][0], pool[0].Size())) + hex(digest(&pool[2][0], pool[2].Size())));
+  for (int rep = 0; rep < g_reps; rep++) { rendezvous(); everything(t, r + 11 * rep, seed, res); }
   // matrix exponential (dimension changes from round to round: thread-local scratch is resized)
   unsigned n2 = 2 + (t * 3 + r) % 5;
   gsl_matrix_complex* A = gsl_matrix_complex_alloc(n2, n2); gsl_matrix_complex* E = gsl_matrix_complex_alloc(n2, n2);
@@ -244,6 +312,7 @@ static std::string consume(SU_vector& in) {
 int main(int argc, char** argv) {
   if (argc < 5) return 3;
   std::string mode = argv[1]; int n = atoi(argv[2]); int rounds = atoi(argv[3]); unsigned seed = atoi(argv[4]);
+  if (argc > 5) g_reps = atoi(argv[5]);
   tracing = (mode == "trace");
   if (tracing) verif::event_sink() = sink;
   my_tid = -1;                      // allocations of the main thread before the workers start are not part of the model
@@ -262,6 +331,7 @@ int main(int argc, char** argv) {
     }
   } else {
     std::vector<std::thread> ths;
+    bar_n = n;
     for (int t = 0; t < n; t++)
       ths.emplace_back([&, t] {
         my_tid = t + 1;
